@@ -312,7 +312,9 @@ CLAIMED = {
              "is checked on every assembled joint.",
         note="Orientations are octahedral (integer rotation matrices) realised by non-unit integer quaternions; positions, offsets, velocities, "
              "accelerations and multipliers are small integers, so every recorded quantity is an exact integer (derivative directions after "
-             "scaling by a power of |P|^2). 344 records in the quick tier, ~2000 in the thorough tier. Rod cross-sections only at nodal xi of the "
+             "scaling by a power of |P|^2). In addition origin-rigid and rigid-rigid pairings with joint bases and body orientations that are "
+             "rotations of small integer quaternions such as (2,1,0,0) (not axis-aligned; every group of inputs carries its common denominator, "
+             "the kernel stays in integers). 474 records in the quick tier, ~2500 in the thorough tier. Rod cross-sections only at nodal xi of the "
              "quaternion-interpolated family (non-nodal xi, SE(3) and R12 rods are not covered). The subsystems' kinematic routines are decided "
              "separately by C04. A corrupted record must be rejected (self-test).",
         technique="TLA+ exact-arithmetic kernel spec model-checked by TLC + TLC trace validation of records taken from the real joints",
@@ -326,10 +328,11 @@ CLAIMED = {
              "derivatives from differentiating the polynomial identities d^2 = r.r, m^2 = w.w; (A) the System contact interface (every method "
              "returns a value or is declared unimplemented; the quantities of the hierarchy must be values). TLC checks the definitions against "
              "closed forms and geometric facts on a lattice. Real Sphere2Plane / Sphere2Sphere contacts between rigid bodies, point masses, "
-             "frames and nodal rod cross-sections (7 + 7 pairings, friction on/off, radii, anisotropy, offsets) are assembled and evaluated at "
+             "frames and nodal rod cross-sections (13 + 7 pairings, friction on/off, radii, anisotropy, offsets) are assembled and evaluated at "
              "lattice states; every record (g_N, g_N_dot, g_N_ddot, gamma_F, gamma_F_dot, W_N, W_F, g_N_q, g_N_dot_q, gamma_F_q, gamma_F_dot_q, "
              "gamma_F_dot_u, Wla_N_q, Wla_F_q) is recomputed by TLC from the kernel; all 20 System contact methods are called on every system kind.",
-        note="Planes: octahedral orientation, polynomial translation (the property's quantifier). Sphere-sphere: Pythagorean separations with "
+        note="Planes: constant orientation, octahedral or tilted (rotation of a small integer quaternion, entering the kernel as F / s), "
+             "polynomial translation (the property's quantifier); bodies at octahedral and at generic rational orientations. Sphere-sphere: Pythagorean separations with "
              "integer |t2_ref x r12|, axis-aligned reference basis from assembly, the convention t1 || t2_ref x n is part of the spec; with a "
              "sphere on a moving frame the same coordinates are evaluated at two times. Body orientations octahedral (integer quaternions). "
              "A corrupted record must be rejected (self-test).",
